@@ -25,6 +25,7 @@
 #include <vector>
 
 #include "explore.h"
+#include "seqwatch.h"
 
 using namespace Vector::BLF;
 
@@ -238,7 +239,9 @@ int main(int argc, char ** argv) {
     build_alpha(alpha, c0);
     double t0 = vx::now_s();
 
+    seqwatch::install("seq_stream", args.json(), hist_str);
     auto run_history = [&](const std::string & h, Model & m, Real & r, std::string & why) -> bool {
+        seqwatch::arm(h);
         if (c0 > 0) { r.u.setDefaultLogContainerSize((uint32_t)c0); m.defc = (unsigned)c0; }
         std::string bm, br;
         for (unsigned char ci : h) {
